@@ -26,6 +26,7 @@ fn step(id: usize, outs: Vec<String>, nexp: usize, exp: Vec<String>, depmode: u8
         removed: false,
         generator: false,
         touches: None,
+        nl: 0,
     }
 }
 
